@@ -262,3 +262,117 @@ func init() {
 		},
 	})
 }
+
+func init() {
+	core.Register(&core.Check{
+		ID:          "C04",
+		Level:       "exploration",
+		Rule:        "case = PRNG history of alloc/AllocN/free/overwrite/flush/commit/rollback/reopen on bounded and unbounded files, with and without initial meta area and overflow area, small meta grow percentage; oracle = harness ownership map checked on every id returned by Alloc/AllocN (>=2, not live, not freed-from-committed in this tx, not allocated twice, not in the meta area, below data end marker and max pages) + partition {headers, live, data-free, meta-free, meta-in-use} pairwise disjoint at every quiescent point + self-identifying page contents re-verified after every transaction; distinct = hash of executed trace; non-trivial = >=3 commits, >=1 write",
+		Assumptions: simdiskAssumptions,
+		NumCases:    func(t string) int { return tierN(t, 1200, 40000) },
+		Race:        func(t string, i int) bool { return i%40 == 0 },
+		Run: func(c *core.Case) *core.Result {
+			return runFileCase(c, fileCaseSpec{
+				mon:     Monitors{Property: "C04", Ownership: true, Partition: true, Content: true},
+				bounded: 2,
+				gen: func(c *core.Case, p *GenParams) {
+					p.Txs = 15 + c.R.Intn(45)
+					if c.Tier == "thorough" {
+						p.Txs = 30 + c.R.Intn(270)
+					}
+					p.WAlloc, p.WFree, p.WWrite, p.WRead = 35, 30, 30, 3
+					p.PCommit, p.PReopen, p.Overflow = 60, 5, 15
+					p.MaxAllocN = 12
+				},
+			})
+		},
+		Finalize: func(a *core.Aggregate) error {
+			if a.Stats["allocs"] == 0 || a.Stats["frees"] == 0 || a.Stats["aborts"] == 0 {
+				return fmt.Errorf("allocs/frees/aborts not observed")
+			}
+			return nil
+		},
+	})
+
+	core.Register(&core.Check{
+		ID:          "C07",
+		Level:       "exploration",
+		Rule:        "case = PRNG prefix history + aborted transaction bodies (allocations from free list and end of file, frees of old and of just-allocated pages, overwrites growing the meta area, Flush before abort, overflow area, failing commits on full bounded files) + suffix; oracle = snapshot of allocator/WAL/header state before Begin must equal the snapshot after Rollback/Close/failed Commit (page sets of both free lists, end markers, meta total, meta pages, overwrite mapping, header txid), readable state == model, partition sane, clean reopen gives the same state; distinct = hash of executed trace; non-trivial = >=3 commits and >=1 abort",
+		Assumptions: simdiskAssumptions,
+		NumCases:    func(t string) int { return tierN(t, 1500, 50000) },
+		Run: func(c *core.Case) *core.Result {
+			return runFileCase(c, fileCaseSpec{
+				mon:     Monitors{Property: "C07", AbortID: true, Content: true, Partition: true, ReopenID: true},
+				bounded: 2,
+				gen: func(c *core.Case, p *GenParams) {
+					p.Txs = 10 + c.R.Intn(30)
+					p.WAlloc, p.WFree, p.WWrite, p.WFlushPage, p.WFlushTx = 35, 25, 35, 8, 6
+					p.PCommit, p.PReopen, p.Overflow = 45, 8, 25
+					p.MaxAllocN = 10
+				},
+			})
+		},
+		Finalize: func(a *core.Aggregate) error {
+			if a.Stats["aborts"] == 0 {
+				return fmt.Errorf("no aborted transaction observed")
+			}
+			return nil
+		},
+	})
+
+	core.Register(&core.Check{
+		ID:          "C10",
+		Level:       "exploration",
+		Rule:        "case = PRNG history with a close/reopen after ~40% of the transactions (plus shape generators, see C10 shapes); oracle = normalised hook snapshot before Close == after Open (free list page sets, end markers, meta total, overwrite mapping, meta bookkeeping pages), model differential after reopen; distinct = hash of executed trace; non-trivial = >=3 commits and >=1 reopen",
+		Assumptions: simdiskAssumptions,
+		NumCases:    func(t string) int { return tierN(t, 1000, 30000) },
+		Run: func(c *core.Case) *core.Result {
+			return runFileCase(c, fileCaseSpec{
+				mon:     Monitors{Property: "C10", ReopenID: true, Content: true, Partition: true},
+				bounded: 2,
+				gen: func(c *core.Case, p *GenParams) {
+					p.Txs = 10 + c.R.Intn(30)
+					p.PReopen = 40
+					p.WFree = 25
+					p.PCommit = 80
+				},
+			})
+		},
+		Finalize: func(a *core.Aggregate) error {
+			if a.Stats["reopens"] == 0 {
+				return fmt.Errorf("no reopen observed")
+			}
+			return nil
+		},
+	})
+
+	core.Register(&core.Check{
+		ID:          "C11",
+		Level:       "exploration",
+		Rule:        "case = PRNG long history of small transactions on a bounded file that never enables the overflow area; oracle at every quiescent point: capacity probe (AllocN until failure in a rolled-back transaction) + live pages + meta area + 2 == max pages; FileStats (DataAllocated, MetaArea, MetaAllocated) from the Observer equal harness truth / hook snapshot; partition covers every page below the end marker (no leak); file extent on the simulated disk <= max size; distinct = hash of executed trace; non-trivial = >=3 commits",
+		Assumptions: simdiskAssumptions,
+		NumCases:    func(t string) int { return tierN(t, 400, 8000) },
+		Run: func(c *core.Case) *core.Result {
+			return runFileCase(c, fileCaseSpec{
+				mon:     Monitors{Property: "C11", Conserve: true, Partition: true},
+				bounded: 1,
+				gen: func(c *core.Case, p *GenParams) {
+					p.Txs = 60 + c.R.Intn(200)
+					if c.Tier == "thorough" {
+						p.Txs = 200 + c.R.Intn(2000)
+					}
+					p.OpsPerTx = 6
+					p.WAlloc, p.WFree, p.WWrite, p.WRead = 35, 30, 25, 0
+					p.PCommit, p.PReopen, p.Overflow = 70, 3, 0
+					p.MaxAllocN = 8
+				},
+			})
+		},
+		Finalize: func(a *core.Aggregate) error {
+			if a.Stats["conservation_checks"] == 0 {
+				return fmt.Errorf("conservation equation never evaluated")
+			}
+			return nil
+		},
+	})
+}
